@@ -63,6 +63,7 @@ fn gens(tier: Tier) -> Vec<Gen> {
         Gen { name: "hostlist-builder", count: hostlist_count(), exhaustive: true, run: run_hostlist_builder },
         Gen { name: "hostlist-env", count: hostlist_count(), exhaustive: true, run: run_hostlist_env },
         Gen { name: "env", count: tier.pick(20_000, 7u64.pow(8)), exhaustive: tier == Tier::Thorough, run: run_env },
+        Gen { name: "env-non-unicode", count: (4 * 4) as u64, exhaustive: true, run: run_env_non_unicode },
         Gen { name: "end-to-end", count: tier.pick(200, 2_000), exhaustive: false, run: run_e2e },
         Gen { name: "end-to-end-redirect", count: (4 * 4 * 3) as u64, exhaustive: true, run: run_e2e_redirect },
     ]
@@ -423,4 +424,65 @@ fn run_e2e_redirect(ctx: &mut Ctx, _rng: &mut Rng, index: u64) {
         }
     }
     ctx.nontrivial(format!("e2er{index}").as_bytes());
+}
+
+/// a variable whose value is not valid Unicode is an unparsable value: ignored, never a panic.
+/// (Whether the upper-case spelling then takes over is the same gray zone as for a blank
+/// lower-case value: both outcomes are acceptable.)
+fn run_env_non_unicode(ctx: &mut Ctx, _rng: &mut Rng, index: u64) {
+    use std::os::unix::ffi::OsStringExt;
+    let bad = || std::ffi::OsString::from_vec(b"http://p\xff\xfe.test:3128".to_vec());
+    let pair = (index % 4) as usize; // 0 http, 1 https, 2 all, 3 no_proxy
+    let cfg = index / 4; // 0: lower bad; 1: lower bad + upper valid; 2: lower valid + upper bad; 3: upper bad
+    clear_env();
+    let (lower, upper) = (PROXY_VARS[pair * 2], PROXY_VARS[pair * 2 + 1]);
+    let valid = if pair == 3 { "zzz.test".to_owned() } else { "http://good.test:3128".to_owned() };
+    if pair == 3 {
+        std::env::set_var("http_proxy", "http://good.test:3128");
+    }
+    match cfg {
+        0 => std::env::set_var(lower, bad()),
+        1 => {
+            std::env::set_var(lower, bad());
+            std::env::set_var(upper, &valid);
+        }
+        2 => {
+            std::env::set_var(lower, &valid);
+            std::env::set_var(upper, bad());
+        }
+        _ => std::env::set_var(upper, bad()),
+    }
+    let res = crate::monitors::catch(|| {
+        let s = ProxySettings::from_env();
+        let scheme = if pair == 1 { "https" } else { "http" };
+        s.for_url(&Url::parse(&format!("{scheme}://zzz.test/")).unwrap()).map(|u| u.host_str().unwrap_or("").to_owned())
+    });
+    clear_env();
+    ctx.count("env_non_unicode_cases", 1);
+    let descr = format!("{lower}/{upper} configuration {cfg} (0: lower not Unicode; 1: lower not Unicode, upper valid; 2: lower valid, upper not Unicode; 3: upper not Unicode): {res:?}");
+    match res {
+        Err(p) => ctx.violation("env:panic-on-non-unicode-value", format!("{p}; {descr}")),
+        Ok(got) => {
+            let proxied = got.as_deref() == Some("good.test");
+            // acceptable outcomes
+            let ok = if pair < 3 {
+                match cfg {
+                    0 | 3 => got.is_none(),
+                    1 => got.is_none() || proxied,
+                    _ => proxied,
+                }
+            } else {
+                // no_proxy pair: the proxy applies unless the valid list (zzz.test) is in force
+                match cfg {
+                    0 | 3 => proxied,
+                    1 => proxied || got.is_none(),
+                    _ => got.is_none(),
+                }
+            };
+            if !ok || got.as_deref().map_or(false, |h| h != "good.test") {
+                ctx.violation("env:non-unicode-value-not-ignored", descr.clone());
+            }
+        }
+    }
+    ctx.nontrivial(descr.as_bytes());
 }
